@@ -29,10 +29,11 @@ TOL = 1e-10
 VASP_TO_THZ = np.sqrt(1.602176634e-19 / 1.66053906660e-27) / 1e-10 / (2 * np.pi) / 1e12
 
 OPTS = {
-    "range": ["short", "long", "border"],
+    "range": ["short", "long", "border", "chiral-short", "chiral-long"],
     "layout": ["full", "compact"],
     "svecs": ["dense", "sparse"],
-    "path": ["C/dm", "Py/dm", "C/run_qpoints", "C/at_q"],
+    # "@f": the same entry points on an object created with a non-default unit factor ("times the unit factor")
+    "path": ["C/dm", "Py/dm", "C/run_qpoints", "C/at_q", "C/run_qpoints@f", "C/at_q@f"],
 }
 
 S_QUICK = [np.eye(3, dtype=int).tolist(), [[2, 0, 0], [0, 1, 0], [0, 0, 1]], [[2, 0, 0], [0, 2, 0], [0, 0, 2]],
@@ -125,9 +126,11 @@ def _freqs(D, factor):
 def run_case(case, seed, c, st):
     tag = "%s/%s/%s/%s" % (case["range"], case["layout"], case["svecs"], case["path"])
     dense = case["svecs"] == "dense"
+    FACTOR = 3.7 if case["path"].endswith("@f") else None
+    dense = (dense, FACTOR)
     if dense not in st["ph"]:
         try:
-            st["ph"][dense] = phx.make_phonopy(c, case["S"], case["pm"], store_dense_svecs=dense)
+            st["ph"][dense] = phx.make_phonopy(c, case["S"], case["pm"], store_dense_svecs=dense[0], **({"factor": FACTOR} if FACTOR else {}))
         except Exception as e:
             st["ph"][dense] = e
     ph = st["ph"][dense]
@@ -147,11 +150,11 @@ def run_case(case, seed, c, st):
     if st["qs"] is None:
         st["qs"] = qset(ph, c, case["S"], st.get("tier", "quick"), seed)
     qs = st["qs"]
-    if case["range"] == "long":
+    if case["range"].endswith("long"):
         qs = [(q, cm) for q, cm in qs if cm]
     p2s = np.asarray(ph.primitive.p2s_map)
     fc_in = np.array(ref if case["layout"] == "full" else ref[p2s], dtype="double", order="C")
-    lang, entry = case["path"].split("/")
+    lang, entry = case["path"].replace("@f", "").split("/")
     trans = 0
     worst = 0.0
     worst_q = None
@@ -202,7 +205,7 @@ def run_case(case, seed, c, st):
         if fr is not None and k < len(fr):
             # well-conditioned form of  f = sign(e) sqrt|e| * factor :  sign(f) (f/factor)^2 == e
             e_ref = np.linalg.eigvalsh(Dr)
-            e_got = np.sort(np.sign(fr[k]) * (fr[k] / U.VaspToTHz) ** 2)
+            e_got = np.sort(np.sign(fr[k]) * (fr[k] / (FACTOR or U.VaspToTHz)) ** 2)
             eerr = float(np.abs(e_got - e_ref).max() / gscale)
             worst_f = max(worst_f, eerr)
     if worst > TOL:
